@@ -8,7 +8,7 @@ Does not decide: LIMIT/OFFSET arithmetic, NULL placement (value level)."""
 import re
 
 from mir import pl_fields, operand_places
-from tmpl import site, suffix, const_arg, local_defs
+from tmpl import site, suffix, const_arg, local_defs, origin_locals
 
 FLAG = 'storage::StorageImpl::table_is_sorted_by_primary_key'
 SCAN_EXEC = 'executor::table_scan::TableScanExecutor::<S>::execute'
@@ -169,6 +169,7 @@ def run(ctx):
                        what='LimitExecutor skips its row counter for some batches (e.g. a batch lying entirely before OFFSET): later '
                             'batches are sliced at the wrong position')
 
+    class_level_order(ctx, prog)
     R5 = 'C12-R5'
     ctx.rule(R5, 'an absent LIMIT is not a size: the builder hands TopN / Limit a huge sentinel when the query has no LIMIT, so no '
                  'allocation in those executors may be sized by `limit` (with_capacity*, reserve, vec![_; n]) unless the amount went '
@@ -220,6 +221,38 @@ def run(ctx):
                         'statement dies with a capacity overflow')
     ctx.floor(R5, n_alloc, 1, 'sized allocations in TopN / Limit executors')
     ctx.note(f'C12-R5: the builder substitutes a constant for a missing LIMIT: {sentinel}')
+
+
+def class_level_order(ctx, prog):
+    """C12-R6: an order claimed for an e-class must hold for every member"""
+    R6 = 'C12-R6'
+    ctx.rule(R6, 'the order of rows is a property of a plan, the analysis keeps it per e-class: when two classes are merged the class may '
+                 'only keep what holds for BOTH (a lower bound: merge_min / common prefix), never the maximum; useless-order deletes an '
+                 'ORDER BY on the strength of the class-level claim, and extraction is free to pick the member that is not ordered')
+    mb = next((b for n, b in prog.bodies.items() if re.search(r'planner::rules::ExprAnalysis as egg::Analysis<planner::Expr>>::merge$', n)), None)
+    if not ctx.anchor(R6, 'ExprAnalysis::merge', mb is not None):
+        return
+    ctx.functions_analysed.add(mb.name)
+    hits = []
+    for c in mb.calls:
+        if not re.search(r'egg::merge_(max|min)$|egg::merge_option$', c.fn or ''):
+            continue
+        flds = set()
+        for a in c.args:
+            if a['k'] == 'const':
+                continue
+            for l in origin_locals(mb, a['pl']['l'], depth=4):
+                for bb, kind, payload in local_defs(mb, l):
+                    if kind == 'assign':
+                        flds |= {f.rsplit('::', 1)[-1] for pl in operand_places(payload) for f in pl_fields(pl)}
+        if 'orderby' in flds:
+            hits.append(c)
+    if ctx.anchor(R6, 'ExprAnalysis::merge: merge of orderby', hits):
+        for c in hits:
+            ctx.ob(R6, 'ExprAnalysis::merge·orderby-lower-bound', not (c.fn or '').endswith('merge_max'),
+                   f'orderby is merged with {c.fn}', [site(mb, c.bb)],
+                   what='the e-class keeps the MAXIMUM of its members\' order keys: one ordered member (a sort aggregation) lets useless-order '
+                        'drop the ORDER BY above the class, and a cost tie extracts the unordered hash aggregation')
 
 
 PASS_THROUGH = ('Proj', 'Filter', 'Window', 'Limit', 'MergeJoin', 'SortAgg', 'Order', 'TopN')
